@@ -5,7 +5,7 @@
    [symbolize mode e script p = Out p' err calls]: Symbolizer.Symbolize(mode, e_srcs e, p) left the
    profile as p' (changed in place, also when it returns an error: err = true) after making
    the plug-in calls [calls]. *)
-From PV Require Import M_Symbolize S_Symbolize L_Symbolize L_SymbolizeValid L_SymbolizeCheck.
+From PV Require Import M_Symbolize S_Symbolize L_Symbolize L_SymbolizeValid L_SymbolizeCheck L_SymbolizeFlags.
 Open Scope Z_scope.
 
 (* the modelled code has no reachable panic (demanglerModeToOptions is only given modes it knows) *)
@@ -38,6 +38,12 @@ Theorem lines_only_attached : forall mode e script p p' err calls,
   symbolize mode e script p = Out p' err calls -> lines_attached p p'.
 Proof. exact symbolize_lines_attached_lemma. Qed.
 Print Assumptions lines_only_attached.
+
+(* the has-symbols flags of a mapping are only ever raised *)
+Theorem flags_only_raised : forall mode e script p p' err calls,
+  symbolize mode e script p = Out p' err calls -> flags_raised p p'.
+Proof. exact symbolize_flags_lemma. Qed.
+Print Assumptions flags_only_raised.
 
 (* mappings that already carry function names, and the locations in them, are left alone unless
    force is requested *)
@@ -85,6 +91,10 @@ Print Assumptions left_alone_checker_sound.
 Theorem lines_checker_sound : forall p p', lines_attachedb p p' = true -> lines_attached p p'.
 Proof. exact lines_attachedb_sound_lemma. Qed.
 Print Assumptions lines_checker_sound.
+
+Theorem flags_checker_sound : forall p p', flags_raisedb p p' = true -> flags_raised p p'.
+Proof. exact flags_raisedb_sound_lemma. Qed.
+Print Assumptions flags_checker_sound.
 
 Theorem names_checker_sound : forall p p', names_keptb p p' = true -> names_kept p p'.
 Proof. exact names_keptb_sound_lemma. Qed.
